@@ -58,7 +58,60 @@ def table_rules():
     return "\n".join(out)
 
 
+def binop_nondot_from_index():
+    nd = [o for o in BINOPS if not o.startswith("Dot")]
+    arms = "\n".join(f"        {i} => BinaryOp::{o}," for i, o in enumerate(nd[:-1]))
+    arms_all = "\n".join(f"        {i} => BinaryOp::{o}," for i, o in enumerate(BINOPS[:-1]))
+    return f"""fn any_nondot_binop() -> BinaryOp {{
+    let k: u8 = kani::any();
+    kani::assume(k < {len(nd)});
+    match k {{
+{arms}
+        _ => BinaryOp::{nd[-1]},
+    }}
+}}
+
+fn any_binop_all() -> BinaryOp {{
+    let k: u8 = kani::any();
+    kani::assume(k < {len(BINOPS)});
+    match k {{
+{arms_all}
+        _ => BinaryOp::{BINOPS[-1]},
+    }}
+}}
+"""
+
+
+NONDOT = [o for o in BINOPS if not o.startswith("Dot")]
+
+
+def binop_scalar_harness_names():
+    return [f"u_binop_scalar_{o.lower()}" for o in NONDOT]
+
+
+def binop_scalar_harnesses():
+    return "\n".join(f"binop_scalar_harness!(u_binop_scalar_{o.lower()}, BinaryOp::{o});" for o in NONDOT)
+
+
+BCAST_OPS = [o for o in NONDOT if o not in ("Via", "Into", "Where")]
+
+
+def bcast_harness_names(kind):
+    return [f"u_bcast_{kind}_{o.lower()}" for o in BCAST_OPS]
+
+
+def bcast_harnesses():
+    out = []
+    for o in BCAST_OPS:
+        out.append(f"bcast_harness!(u_bcast_ls_{o.lower()}, bcast_list_scalar_contract, BinaryOp::{o});")
+        out.append(f"bcast_harness!(u_bcast_ll_{o.lower()}, bcast_list_list_contract, BinaryOp::{o});")
+    return "\n".join(out)
+
+
 GENERATORS = {
+    "bcast_harnesses": bcast_harnesses,
+    "binop_scalar_harnesses": binop_scalar_harnesses,
+    "binop_nondot_from_index": binop_nondot_from_index,
     "op_from_index": op_from_index,
     "spec_must_wrap": spec_must_wrap,
     "spec_level": spec_level,
